@@ -174,6 +174,9 @@ def gen_scenario(rng, tier, knobs):
                     'tgt_name': rng.choice([ps['name'], 'sub/%s' % ps['name']]),
                     'tgt_schema': 'rel', 'src_abs': False, 'missing': False,
                     'pstaged': True}]
+    # tuning knob: number of tasks without client side staging from which on
+    # the tmgr input stager pre-creates their sandboxes by tar (default 16)
+    sc['mkdir_threshold'] = rng.choice([16, 16, 1, 2, 3])
     # the connection between one side and the proxy pubsubs is cut for a
     # while: state updates and cancel requests are held (not lost) until it
     # heals.  Drawn last.
@@ -320,6 +323,15 @@ def run(seed, sc, trace=None, tier='quick'):
             net.bulk_max  = sc['bulk_max']
             sim.freeze('Idler')
             tmgr = w['tmgr']
+            si = find_component(w, 'tmgr_staging_input')
+            if si is not None and sc.get('mkdir_threshold'):
+                si._mkdir_threshold = sc['mkdir_threshold']
+                real_callout = si._stager.sh_callout
+
+                def callout(url, cmd):
+                    sim.probe('bulk_mkdir_tar')
+                    return real_callout(url, cmd)
+                si._stager.sh_callout = callout
 
             def cb(task, state):
                 st['cb'].setdefault(task.uid, []).append(state)
